@@ -1,6 +1,7 @@
 use crate::{
     consts::{FELT_0, FELT_1, FELT_2},
     dynamic::DynamicParams,
+    layout::CompositionPolyEvalError,
     types::{ContinuousPageHeader, Page, SegmentInfo},
 };
 use alloc::vec;
@@ -64,19 +65,21 @@ impl PublicInput {
         z: Felt,
         alpha: Felt,
         public_memory_column_size: Felt,
-    ) -> Felt {
+    ) -> Result<Felt, CompositionPolyEvalError> {
         let (pages_product, total_length) = self.get_public_memory_product(z, alpha);
 
         // Pad and divide
         let numerator = z.pow_felt(&public_memory_column_size);
         let padded = z - (self.padding_addr + alpha * self.padding_value);
 
-        assert!(total_length <= public_memory_column_size);
+        if total_length > public_memory_column_size {
+            return Err(CompositionPolyEvalError::ValueOutOfRange);
+        }
         let denominator_pad = padded.pow_felt(&(public_memory_column_size - total_length));
 
-        numerator
-            .field_div(&NonZeroFelt::from_felt_unchecked(pages_product))
-            .field_div(&NonZeroFelt::from_felt_unchecked(denominator_pad))
+        Ok(numerator
+            .field_div(&NonZeroFelt::try_from(pages_product)?)
+            .field_div(&NonZeroFelt::try_from(denominator_pad)?))
     }
     // Returns the product of all public memory cells.
     pub fn get_public_memory_product(&self, z: Felt, alpha: Felt) -> (Felt, Felt) {
